@@ -1,6 +1,7 @@
 package main
 
 import (
+	"go/token"
 	"fmt"
 	"go/types"
 	"strings"
@@ -311,6 +312,66 @@ func (fg *FG) block(b *ssa.BasicBlock, pkg *types.Package) {
 		}
 		fg.invStep(b, s, st, pkg)
 	}
+	// exit edges: loop exit clauses
+	if len(fg.c.Exits) > 0 {
+		for _, s := range b.Succs {
+			for h, blocks := range fg.loopBlocks {
+				if !blocks[b.Index] || blocks[s.Index] {
+					continue
+				}
+				ord := fg.loopOrd[h]
+				cls := fg.c.Exits[ord]
+				if len(cls) == 0 {
+					continue
+				}
+				// a return statement written inside the loop is not an exit in this sense
+				if len(s.Instrs) > 0 {
+					if r, ok := s.Instrs[len(s.Instrs)-1].(*ssa.Return); ok && fg.posInLoop(h, r.Pos()) {
+						continue
+					}
+					if _, ok := s.Instrs[len(s.Instrs)-1].(*ssa.Panic); ok {
+						continue
+					}
+				}
+				cond := smtOr(fg.edgeConds(b, s))
+				env := fg.envAt(st, pkg, fg.localResolverAt(b, fn_header(fg, h), st))
+				env.loopEntry = fg.loopEntrySt[h]
+				for k, q := range cls {
+					t := env.tr(q.E)
+					fg.oblig("exit", fmt.Sprintf("exit:loop%d#%s@b%d", ord, clauseName(q, k), b.Index), q.Tag, cond, t.T, q.Src, fmt.Sprintf("%s:%d", q.File, q.Line))
+				}
+			}
+		}
+	}
+}
+
+func fn_header(fg *FG, h int) *ssa.BasicBlock { return fg.fn.Blocks[h] }
+
+// posInLoop: does the source position lie within the source extent of the loop with header h?
+func (fg *FG) posInLoop(h int, pos token.Pos) bool {
+	if !pos.IsValid() {
+		return false
+	}
+	lo, hi := token.NoPos, token.NoPos
+	for bi := range fg.loopBlocks[h] {
+		for _, in := range fg.fn.Blocks[bi].Instrs {
+			if _, isPhi := in.(*ssa.Phi); isPhi {
+				continue
+			}
+			if _, isDbg := in.(*ssa.DebugRef); isDbg {
+				continue
+			}
+			if p := in.Pos(); p.IsValid() {
+				if lo == token.NoPos || p < lo {
+					lo = p
+				}
+				if p > hi {
+					hi = p
+				}
+			}
+		}
+	}
+	return lo != token.NoPos && pos >= lo && pos <= hi
 }
 
 func (fg *FG) addEdge(p, s *ssa.BasicBlock, cond string) {
